@@ -470,6 +470,11 @@ pub fn run_all(e: &'static dyn Engine, ctx: &Ctx, agg: Aggregate) -> Aggregate {
     let agg = Mutex::new(agg);
     let stop_after: usize =
         std::env::var("VERIF_STOP_AFTER").ok().and_then(|s| s.parse().ok()).unwrap_or(300);
+    // runs that show a listed known finding are expected on the unchanged tree: they must not end the batch
+    let known_classes: HashSet<String> =
+        load_findings(&ctx.verif_dir).into_iter().filter(|f| f.status == "finding" && f.property == e.id()).map(|f| f.signature).collect();
+    let known_classes = &known_classes;
+    let unlisted = move |a: &Aggregate| a.violations.iter().filter(|v| !known_classes.contains(&v.class)).count();
     std::thread::scope(|s| {
         for wid in 0..ctx.jobs {
             let queue = &queue;
@@ -482,7 +487,7 @@ pub fn run_all(e: &'static dyn Engine, ctx: &Ctx, agg: Aggregate) -> Aggregate {
                         return;
                     }
                     // enough evidence of a violation: do not spend the whole budget re-finding it
-                    if agg.lock().unwrap().violations.len() >= stop_after {
+                    if unlisted(&agg.lock().unwrap()) >= stop_after {
                         return;
                     }
                     let Some(ch) = queue.lock().unwrap().pop_front() else { return };
@@ -495,7 +500,7 @@ pub fn run_all(e: &'static dyn Engine, ctx: &Ctx, agg: Aggregate) -> Aggregate {
     let left = queue.into_inner().unwrap();
     if !left.is_empty() {
         let n: u64 = left.iter().map(|c| c.hi - c.lo).sum();
-        if agg.violations.len() >= stop_after {
+        if unlisted(&agg) >= stop_after {
             agg.notes.push(format!("stopped early after {} violating runs: {n} planned cases were not run", agg.violations.len()));
         } else {
             agg.notes.push(format!("time budget reached: {n} planned cases were not run"));
@@ -758,6 +763,7 @@ pub fn check(e: &'static dyn Engine, ctx: &Ctx) -> Outcome {
         replays.push(path.display().to_string());
         reported += 1;
     }
+    known_lines.dedup();
     for l in &known_lines {
         println!("{l}");
     }
